@@ -64,6 +64,25 @@ def scenarios(seed, n):
     return out[:n]
 
 
+def settle(lines):
+    """The driver logs `change` (and the dispatcher `reload`) from their own goroutines: such a line can land between the loop's
+    `hnotify` / `htimer` line and the `hrun` / `hnewstore` line of the same round.  It says "about to ...", so it is moved in front
+    of the round's first line (the loop's own order is untouched)."""
+    out = list(lines)
+    i = 0
+    while i < len(out):
+        if out[i]["ev"] in ("hnotify", "htimer"):
+            j = i + 1
+            env = []
+            while j < len(out) and out[j]["ev"] in ("change", "reload"):
+                env.append(out[j]); j += 1
+            if env and j < len(out) and out[j]["ev"] in ("hrun", "hnewstore"):
+                out[i:j] = env + [out[i]]
+                i += len(env)
+        i += 1
+    return out
+
+
 def run(ctx):
     thorough = ctx.tier == "thorough"
     cov = ctx.coverage
@@ -96,7 +115,7 @@ def run(ctx):
     def validate(i):
         sr = r["scenarios"][i]
         evs = events[sr["first"]:sr["last"]]
-        lines = [{"ev": e["ev"], "s": e["s"], "p": e["p"]} for e in evs if e["ev"] != "hexec"]
+        lines = settle([{"ev": e["ev"], "s": e["s"], "p": e["p"]} for e in evs if e["ev"] != "hexec"])
         trace = "".join(json.dumps(x, separators=(",", ":")) + "\n" for x in lines)
         return ctx.run_tlc("TraceHooks.tla", "TraceHooks.cfg", workers=1, timeout=120, name="trace-hooks-%d" % i, heap="1g",
                            defines={"trace.ndjson": trace})
@@ -106,7 +125,7 @@ def run(ctx):
         evs = events[sr["first"]:sr["last"]]
         if sr["blocked"]:
             ctx.violation("C19", "notify-send-blocked:" + sc["name"].split("-")[0], "a send to the hooks caller did not complete within 2 s")
-        lines = [{"ev": e["ev"], "s": e["s"], "p": e["p"]} for e in evs if e["ev"] != "hexec"]
+        lines = settle([{"ev": e["ev"], "s": e["s"], "p": e["p"]} for e in evs if e["ev"] != "hexec"])
         hwm, inv = None, None
         for line in open(t["outfile"]):
             m = re.match(r'<<"HWM", (\d+), (\d+)>>', line)
